@@ -37,7 +37,7 @@ EXPECT_PROBES = ["created_on_grid", "created_1us_before_grid", "created_1us_afte
                  "resample_restarted_by_driver", "series_added_during_tick", "series_removed_while_running",
                  "slow_source", "source_stopped", "fast_source", "loop_lags_behind",
                  "sample_stamped_just_before_window_end", "more_than_32_series",
-                 "resample_started_late"]
+                 "resample_started_late", "moving_window_input_period_equals_resampling_period"]
 
 UNIX_EPOCH = datetime.fromtimestamp(0.0, tz=timezone.utc)
 PERIODS_US = [200_000, 1_000_000, 1_500_000, 3_000_000, 7_300_000]
@@ -515,23 +515,37 @@ def scenario(sim: Sim) -> None:
         creation_us = sim.now_us
         chan: Any = Broadcast(name="mw-in")
         cfg = ResamplerConfig(resampling_period=period, align_to=align_to, max_data_age_in_periods=3.0)
+        # input as fast as 4 samples per period, or exactly one per period (resampling is then what puts the series
+        # on the grid: the raw stamps are off it)
+        in_div = ch.choice("mw_input_samples_per_period", [4, 4, 1])
+        if in_div == 1:
+            sim.probe("moving_window_input_period_equals_resampling_period")
         mw = MovingWindow(size=period * 100, resampled_data_recv=chan.new_receiver(limit=5000),
-                          input_sampling_period=period / 4, resampler_config=cfg,
+                          input_sampling_period=period / in_div, resampler_config=cfg,
                           align_to=align_to if align_to is not None else sim.epoch)
         creation = (creation_us, sim.now_us)
         # tap the sink the window registers with its internal Resampler (every tick, also None-valued ones which
-        # the window does not write into its buffer)
-        assert mw._resampler is not None
-        orig_add = mw._resampler.add_timeseries
+        # the window does not write into its buffer); a window that has no Resampler of its own is observed at its
+        # ring buffer instead (what is stored there is the resampled series the property talks about)
+        if mw._resampler is not None:
+            orig_add = mw._resampler.add_timeseries
 
-        def add(name: str, source: Any, sink: Any) -> bool:
-            async def tapped(sample: Any) -> None:
+            def add(name: str, source: Any, sink: Any) -> bool:
+                async def tapped(sample: Any) -> None:
+                    rec.record("mw", sample.timestamp)
+                    await sink(sample)
+
+                return orig_add(name, source, tapped)
+
+            mw._resampler.add_timeseries = add  # type: ignore[method-assign]
+        else:
+            orig_update = mw._buffer.update
+
+            def update(sample: Any) -> None:
                 rec.record("mw", sample.timestamp)
-                await sink(sample)
+                orig_update(sample)
 
-            return orig_add(name, source, tapped)
-
-        mw._resampler.add_timeseries = add  # type: ignore[method-assign]
+            mw._buffer.update = update  # type: ignore[method-assign]
         rec.at_creation.add("mw")
         tx = chan.new_sender()
         run_us = nticks * period_us
@@ -545,7 +559,7 @@ def scenario(sim: Sim) -> None:
             while True:
                 n += 1
                 await tx.send(Sample(sim.wall(), Quantity(float(n))))
-                await asyncio.sleep(period_us / 4e6)
+                await asyncio.sleep(period_us / (in_div * 1e6))
 
         ft = sim.spawn(feeder())
         await _until(sim, pre + run_us)
